@@ -139,6 +139,15 @@ func evaluate(j job, driver string) scenRecord {
 	if o.Spec.PreIdleMs > 0 {
 		cnt("idle-longer-than-every-internal-wait-before-traffic")
 	}
+	if len(o.Spec.Sizes) > 0 {
+		cnt("size-mix-around-write-buffer")
+	}
+	if o.Spec.Batch {
+		cnt("send-and-clear-batch")
+	}
+	if o.Spec.PostBig > 0 {
+		cnt("frames-larger-than-write-buffer-after-write-timeout")
+	}
 	for _, c := range o.Conns {
 		if c.Stalled {
 			cnt("collector-stalled")
@@ -388,6 +397,16 @@ func specWeight(sp scenarioSpec) int64 {
 		per = int64(sp.BigAll) * 9 / 8
 	case sp.Big > 0:
 		per += int64(sp.Big) * 3 / 4 * 15 / 100
+	}
+	if sp.PostBig > 0 && int64(sp.PostBig) > per {
+		per = int64(sp.PostBig)
+	}
+	if n := len(sp.Sizes); n > 0 {
+		per = 0
+		for _, s := range sp.Sizes {
+			per += int64(s)
+		}
+		per /= int64(n)
 	}
 	return 4*sends*per + 8<<20
 }
